@@ -23,28 +23,33 @@ pub(super) struct MulAddFusion<F> {
     write_counts: HashMap<WitnessId, usize>,
     defs: HashMap<WitnessId, IndexedDef<F>>,
     backwards_computed: HashMap<WitnessId, usize>,
+    /// Witnesses written before any op runs (private inputs).
+    external: hashbrown::HashSet<WitnessId>,
 }
 
 impl<F: Field> MulAddFusion<F> {
     /// Scans `ops` to build use-counts, definitions, and backwards-op tracking.
+    #[cfg(test)]
     pub(super) fn new(ops: &[Op<F>]) -> Self {
+        Self::with_external_writes(ops, &[])
+    }
+
+    /// Like [`Self::new`], with the witnesses that are written outside the op list
+    /// (private inputs): an op whose `out` is one of them runs backwards.
+    pub(super) fn with_external_writes(ops: &[Op<F>], external: &[WitnessId]) -> Self {
         let mut fusion = Self {
             use_counts: HashMap::new(),
             write_counts: HashMap::new(),
             defs: HashMap::with_capacity(ops.len()),
             backwards_computed: HashMap::new(),
+            external: external.iter().copied().collect(),
         };
+        for id in external {
+            *fusion.write_counts.entry(*id).or_default() += 1;
+        }
         fusion.scan_use_counts(ops);
         fusion.scan_defs(ops);
         fusion
-    }
-
-    /// Registers witnesses that are written outside the op list (private inputs).
-    pub(super) fn with_external_writes(mut self, ids: &[WitnessId]) -> Self {
-        for id in ids {
-            *self.write_counts.entry(*id).or_default() += 1;
-        }
-        self
     }
 
     /// Runs the three-phase fusion and returns the rewritten op list.
@@ -71,7 +76,7 @@ impl<F: Field> MulAddFusion<F> {
     }
 
     fn is_backwards(&self, idx: usize, out: &WitnessId) -> bool {
-        self.def_idx(out).is_some_and(|i| i < idx)
+        self.external.contains(out) || self.def_idx(out).is_some_and(|i| i < idx)
     }
 
     /// Inserts a def unless the witness is already a Const (connect aliasing).
